@@ -25,7 +25,7 @@ pub struct Iter {
     pub target_mode: u8,
     /// an inference-only forward on another input before this iteration
     pub extra_forward: bool,
-    /// skip model.update() in this iteration (gradients must then accumulate into the next one exactly as the engine says)
+    /// call model.update() a second time right after this iteration's update (it finds no gradients and must be a no-op)
     pub probe_forward_after: bool,
 }
 
@@ -84,6 +84,8 @@ impl Case14 {
         let mut model = Model::new(refs, &gd, &cf);
         let nl = self.specs.len();
         let mut info = RunInfo { truncated_at: None, nonzero_steps: 0, zero_sum_grads: 0, batch_sizes: vec![] };
+        // index (in units of whole-model snapshots) of the snapshot taken by each iteration's update
+        let mut snap_of_iter: Vec<usize> = vec![];
         // one entry per iteration: (x, target, loss)
         let mut batches: Vec<(T, T, f64)> = vec![];
         let desc = |it: usize| format!("iteration {} of {} (stack {:?}, cost {:?}, lr {}, batches {:?})", it, self.iters.len(), self.specs, self.cost, self.lr, self.iters.iter().map(|i| i.batch).collect::<Vec<_>>());
@@ -116,22 +118,31 @@ impl Case14 {
                 Ok(l) => l as f64,
                 Err(p) => return e("unexpected-panic", format!("{}: backward panicked: {}", desc(it), p)),
             };
+            snap_of_iter.push(log.borrow().len() / nl.max(1));
             if let Err(p) = guarded(|| model.update()) {
                 return e("unexpected-panic", format!("{}: update panicked: {}", desc(it), p));
+            }
+            if spec.probe_forward_after {
+                // a second update right away finds no gradients and must change nothing
+                if let Err(p) = guarded(|| model.update()) {
+                    return e("unexpected-panic", format!("{}: a second update without gradients panicked: {}", desc(it), p));
+                }
             }
             batches.push((T::from_f64(&xd, &xv), T::from_f64(&od, &tv), loss));
             info.batch_sizes.push(spec.batch);
         }
         // a final gradient-free update exposes the last parameters
+        snap_of_iter.push(log.borrow().len() / nl.max(1));
         if let Err(p) = guarded(|| model.update()) {
             return e("unexpected-panic", format!("final update panicked: {}", p));
         }
         drop(model);
         let lg = log.borrow();
-        if lg.len() != nl * (self.iters.len() + 1) {
-            return e("internal", format!("expected {} parameter snapshots, saw {}", nl * (self.iters.len() + 1), lg.len()));
+        let extra = self.iters.iter().filter(|i| i.probe_forward_after).count();
+        if lg.len() != nl * (self.iters.len() + 1 + extra) {
+            return e("internal", format!("expected {} parameter snapshots, saw {}", nl * (self.iters.len() + 1 + extra), lg.len()));
         }
-        let snap_at = |it: usize| -> Vec<&Vec<ParamSnap>> { (0..nl).map(|l| &lg[it * nl + l].1).collect() };
+        let snap_at = |it: usize| -> Vec<&Vec<ParamSnap>> { (0..nl).map(|l| &lg[snap_of_iter[it] * nl + l].1).collect() };
         for it in 0..self.iters.len() {
             let cur = snap_at(it);
             let next = snap_at(it + 1);
@@ -277,9 +288,10 @@ pub fn run(ctx: &Ctx) -> i32 {
             .boxed()
     };
     st.merge(ctx.run_prop("training-runs", total, strat, |(b, its, pseed, lri, ce, int_data)| {
+        let upd = *pseed;
         let cost = if *ce { CostKind::CrossEntropy } else { CostKind::Mse };
         let (specs, rows, cols) = make_stack(b, if *ce { Some(if b[7] & 1 == 0 { Act::Softmax } else { Act::Sigmoid }) } else { None });
-        let iters = its.iter().map(|(batch, xseed, tm, ef)| Iter { batch: *batch, xseed: *xseed, target_mode: (*tm == 0) as u8, extra_forward: *ef, probe_forward_after: false }).collect();
+        let iters = its.iter().map(|(batch, xseed, tm, ef)| Iter { batch: *batch, xseed: *xseed, target_mode: (*tm == 0) as u8, extra_forward: *ef, probe_forward_after: (xseed ^ upd) % 5 == 0 }).collect();
         Some(Case14 { specs, rows, cols, cost, lr: LRS[*lri % LRS.len()], pseed: *pseed, int_data: *int_data && !*ce, iters })
     }));
     // structured: a linear dense layer with integer data and targets = output + cancelling perturbation
@@ -288,7 +300,7 @@ pub fn run(ctx: &Ctx) -> i32 {
         let output = 2 + ((i / 4) % 4) as usize;
         let batch = ((i / 16) % 4) as usize;
         let lr = [0.5, 0.25, 1.0][((i / 64) % 3) as usize];
-        let iters = (0..4).map(|k| Iter { batch: if k == 2 { (batch + 1) % 4 } else { batch }, xseed: i * 10 + k, target_mode: (k % 2 == 0) as u8, extra_forward: k == 1, probe_forward_after: false }).collect();
+        let iters = (0..4).map(|k| Iter { batch: if k == 2 { (batch + 1) % 4 } else { batch }, xseed: i * 10 + k, target_mode: (k % 2 == 0) as u8, extra_forward: k == 1, probe_forward_after: k == 0 && i % 2 == 0 }).collect();
         Some(Case14 { specs: vec![LayerSpec::Dense { input, output, act: Act::None }], rows: 1, cols: 1, cost: CostKind::Mse, lr, pseed: i + 3, int_data: true, iters })
     }));
     finish(
